@@ -113,8 +113,8 @@ class Check:
     shrink_timeout = 200
     rule = ('one case = (filter, architecture stream|batch, gains, history seed, dropout pattern); quick enumerates sensor '
             'subset (7 non-empty subsets of acc/mag/gyr) x start in {1, mid-motion, right after a kick, last possible} x '
-            'length in {1,5,50} for every filter x architecture, thorough adds starts {0,2}, lengths {2,20,100}, two '
-            'disjoint dropouts and seeded random patterns with a second fault kind in the window; distinct = distinct '
+            'length in {1,5,50} (plus the first sample, lengths 1 and 5, with the class\'s own initialisation) for every filter x architecture, thorough adds start 2, lengths {2,20,100}, two '
+            'disjoint dropouts and seeded random patterns with a second fault kind in the window, a gyro bias or a per-call period; distinct = distinct '
             '(filter, architecture, frame/gain variant, fault pattern); non-trivial = at least one zeroed row actually '
             'reached the filter after its first sample')
     assumptions = [
